@@ -634,5 +634,5 @@ func (e *eng) check() {
 			fmt.Printf("stats %-14s keys %4d paths(last run) %8d\n", t, kc[t], n)
 		}
 	}
-	e.s.Note("compiler explored: %d summary keys (node type x flag context x operand slot), %d runs to the fixpoint, %d paths", len(e.sums), e.nruns, e.npaths)
+	e.s.Note("compiler explored: %d summary keys (node type x flag context x operand slot), %d runs to the fixpoint, %d paths; child lists: array literals 0-%d elements, arguments / parameters 0-%d, blocks 2-%d statements, loops with 1-%d iterators", len(e.sums), e.nruns, e.npaths, 3+e.deep, 2+e.deep, 3+e.deep, 2+e.deep)
 }
